@@ -10,7 +10,7 @@
 /// edge identifier types.
 pub trait GraphBase {
     /// edge identifier
-    type EdgeId: Copy + PartialEq;
+    type EdgeId: /*R:D35 Copy + */ /*-*/ PartialEq;   // D35: this Verus does not see that a tuple EdgeId (MatrixGraph, GraphMap) is Copy; no contract or proof uses the bound
     /// node identifier
     type NodeId: Copy + PartialEq;
 }
@@ -124,9 +124,12 @@ pub trait Visitable : GraphBase {
 //@ item src/visit/mod.rs | - | trait NodeCount
 /// A graph with a known node count.
 pub trait NodeCount : GraphBase {
-    /*+*/spec fn ncount(&self) -> usize;/*-*/
+    /*+*/spec fn ncount(&self) -> usize;
+    /// what the implementor needs to count (its representation invariant where the count is computed, e.g. MatrixGraph); `true` unless overridden
+    open spec fn count_inv(&self) -> bool { true }/*-*/
     fn node_count(self: &Self) -> (r: usize)
-        /*+*/ensures r == self.ncount()/*-*/;
+        /*+*/requires self.count_inv()
+        ensures r == self.ncount()/*-*/;
 }
 //@ end
 
@@ -152,10 +155,12 @@ pub trait NodeCompactIndexable : NodeIndexable + NodeCount {
 //@ item src/visit/mod.rs | - | trait EdgeCount
 /// A graph with a known edge count.
 pub trait EdgeCount : GraphBase {
-    /*+*/spec fn ecount(&self) -> usize;/*-*/
+    /*+*/spec fn ecount(&self) -> usize;
+    open spec fn ecount_inv(&self) -> bool { true }/*-*/
     /// Return the number of edges in the graph.
     fn edge_count(self: &Self) -> (r: usize)
-        /*+*/ensures r == self.ecount()/*-*/;
+        /*+*/requires self.ecount_inv()
+        ensures r == self.ecount()/*-*/;
 }
 //@ end
 
